@@ -1,5 +1,6 @@
 import Jwt.Lemmas.Policy
 import Jwt.Lemmas.PipelineSig
+import Jwt.Lemmas.StrCmpCode
 /-!
 # C01 — no token is accepted without a valid signature by the configured key
 
@@ -106,5 +107,14 @@ theorem C01_verify_sig_is_source (env : Env) (k : KeyItem) (alg : Alg) (msg sigB
     (verifySig env k alg msg sigB64).1.isSome =
       ((verifySigGen env k alg msg sigB64).2 || (algIsPk alg && (checkKeyBits alg k).isSome)) :=
   verifySig_generated env k alg msg sigB64
+
+
+/-- **The MAC comparison is the source's.**  The HS* check compares the recomputed MAC's text with the token's through
+`jwt_strcmp`; as translated from jwt-memory.c it returns 0 exactly when the two texts are equal, whatever their lengths
+(in particular: not when they differ by a multiple of some power of two in length, or only beyond a common prefix) -/
+theorem C01_mac_compare_is_source (mac sig : Bytes) :
+    Generated.StrCmpCode.jwtStrcmp (mac.map UInt8.toNat) (sig.map UInt8.toNat) = 0 ↔ mac = sig := by
+  rw [StrCmpCode.translated_agrees_with_model, jwtStrcmp_eq_zero_iff]
+
 
 end Jwt.Props.C01
